@@ -257,6 +257,18 @@ def run_from_bitarray(case):
 HANDLERS['from_bitarray'] = run_from_bitarray
 
 
+def run_from_bitarray_kind(case):
+    """from_bitarray on any word: [0] when it returns an operand record or None or raises UndefinedInstructionException,
+    the first two codes of the exception encoding otherwise (a host error is [1, code])"""
+    enc = run_from_bitarray(case)
+    if enc[0] == 0 or enc[:2] == [2, 6]:
+        return [0]
+    return enc[:2]
+
+
+HANDLERS['from_bitarray_kind'] = run_from_bitarray_kind
+
+
 def run_decode(case):
     """call a decoder module's decode_instruction(word) (no processor involved); returns [0,0] for None,
     [0,1,code] for a concrete encoding class, or the exception encoding"""
